@@ -41,6 +41,7 @@ type c04Result struct {
 	Gen0     uint64    `json:"gen0"` // WriteGen before / after the operation
 	Gen1     uint64    `json:"gen1"`
 	Dir      []string  `json:"dir"` // names in the state directory after the operation
+	Disk1    fileObs   `json:"disk1"` // the file as a second db.Open (same key) sees it after the operation
 	Retried  bool      `json:"retried"`
 	Res2     resObs    `json:"res2"` // the same call once more, if the first one reported an error
 	Served2  []secDump `json:"served2"`
@@ -84,6 +85,45 @@ func writeCleartextKEK(path string) tink.AEAD {
 	}
 	a, _ := aead.New(h)
 	return a
+}
+
+// fileObs: what is found at the live path (absent / does not open / contents incl. counters)
+type fileObs struct {
+	Kind string    `json:"kind"` // absent | broken | state
+	Dump []secDump `json:"dump,omitempty"`
+	Note string    `json:"note,omitempty"`
+}
+
+// observeFile opens the database file with db.Open under the given key (never creating
+// it) and dumps it through the API; counters come from the documented layout.
+func observeFile(path string, kek tink.AEAD) fileObs {
+	if _, err := os.Lstat(path); err != nil {
+		return fileObs{Kind: "absent"}
+	}
+	d2, err := db.Open(path, kek, audit.New(io.Discard))
+	if err != nil {
+		return fileObs{Kind: "broken", Note: "db.Open: " + err.Error()}
+	}
+	super := mkCaller(DBCaller{ID: 0, Rules: superRules()})
+	via, err := dumpVia(d2, super)
+	if err != nil {
+		return fileObs{Kind: "broken", Note: "dump: " + err.Error()}
+	}
+	dec, err := decodeFile(path, kek)
+	if err != nil || !sameDump(dec, via, false) {
+		return fileObs{Kind: "state", Dump: via, Note: "layout decode disagrees with db.Open"}
+	}
+	return fileObs{Kind: "state", Dump: dec}
+}
+
+func coqFileObs(f fileObs) string {
+	switch f.Kind {
+	case "absent":
+		return "FAbsent"
+	case "state":
+		return "(FState " + coqDisk(f.Dump) + ")"
+	}
+	return "FBroken"
 }
 
 func listDir(dir string) []string {
@@ -177,6 +217,7 @@ func c04Child(o Opts) {
 	}
 	k1 := kek.count()
 	res.Dir = listDir(spec.State)
+	res.Disk1 = observeFile(path, kek.inner)
 	if d != nil {
 		dump, derr := dumpVia(d, super)
 		res.Served, res.ServedOK = dump, derr == nil
